@@ -149,20 +149,37 @@ class Check:
         self.harness = self.meta.get('harness', prop.lower())
 
     # ---- 1. hygiene
+    def closure(self):
+        """.v files under coq/ that props/Cnn.v and run/RunCnn.v depend on (transitively), by their Require lines."""
+        todo = [os.path.join('props', self.prop + '.v'), os.path.join('run', self.runname + '.v')]
+        seen = []
+        while todo:
+            f = todo.pop()
+            if f in seen or not os.path.exists(os.path.join(COQ, f)):
+                continue
+            seen.append(f)
+            txt = re.sub(r'\(\*.*?\*\)', '', open(os.path.join(COQ, f), errors='replace').read(), flags=re.S)
+            for m in re.finditer(r'(From\s+Bfe\s+)?Require\s+(?:Import\s+|Export\s+)?', txt):
+                end = re.search(r'\.(\s|$)', txt[m.end():])
+                if not end:
+                    continue
+                for mod in txt[m.end():m.end() + end.start()].split():
+                    if m.group(1):
+                        todo.append(mod.replace('.', '/') + '.v')
+                    elif mod.startswith('Bfe.'):
+                        todo.append(mod[4:].replace('.', '/') + '.v')
+        return seen
+
     def hygiene(self):
         bad = []
-        for d, _, fs in os.walk(COQ):
-            for f in fs:
-                if f.endswith('.v'):
-                    p = os.path.join(d, f)
-                    txt = open(p, errors='replace').read()
-                    txt = re.sub(r'\(\*.*?\*\)', '', txt, flags=re.S)
-                    for m in FORBIDDEN.finditer(txt):
-                        bad.append('%s: %s' % (os.path.relpath(p, ROOT), m.group(0)))
+        for f in self.closure():
+            p = os.path.join(COQ, f)
+            txt = open(p, errors='replace').read()
+            txt = re.sub(r'\(\*.*?\*\)', '', txt, flags=re.S)
+            for m in FORBIDDEN.finditer(txt):
+                bad.append('%s: %s' % (os.path.relpath(p, ROOT), m.group(0)))
         if bad:
             self.problems.append('hygiene: forbidden vernacular: ' + '; '.join(bad[:5]))
-        rc, out, _, _ = run(['git', 'status', '--porcelain', 'KNOWN_FINDINGS.txt'], cwd=ROOT)
-        # informational only: the file is never written by the checks
 
     # ---- 2. translators
     def translate(self):
